@@ -2,6 +2,7 @@ import json
 import logging
 import os
 import time
+import uuid
 from pathlib import PurePath
 from typing import Any, Optional, List, Union, Dict
 from collections import OrderedDict
@@ -201,15 +202,20 @@ class LocalFileStore(Store):
             STU.from_type(type(blob)), codec
         )
         p = os.path.join(self._root, "blobs", key)
+        # Other processes, and the next run if this one is killed, must never see a partially written blob:
+        # the data and then the metadata are written under a temporary name and renamed into place.
+        # The blob only counts as present once its metadata is (see has_blob).
+        suffix = f".tmp-{os.getpid()}-{uuid.uuid4().hex}"
         if isinstance(protocol, CodecProtocol):
-            protocol.serialize_into(blob, GenericLocation(p))
+            protocol.serialize_into(blob, GenericLocation(p + suffix))
         elif isinstance(protocol, FileCodecProtocol):
-            # This is the local file system, we can directly copy the file to its final destination
-            protocol.serialize_into(blob, PurePath(p))
+            # This is the local file system, we can directly write the file next to its final destination
+            protocol.serialize_into(blob, PurePath(p + suffix))
         else:
             raise DDSException(f"Wrong protocol type: {type(protocol)} {protocol}")
+        os.replace(p + suffix, p)
         meta_p = os.path.join(self._root, "blobs", key + ".meta")
-        with open(meta_p, "wb") as f:
+        with open(meta_p + suffix, "wb") as f:
             f.write(
                 json.dumps(
                     {
@@ -218,11 +224,14 @@ class LocalFileStore(Store):
                     }
                 ).encode("utf-8")
             )
+        os.replace(meta_p + suffix, meta_p)
         _logger.debug(f"Committed new blob in {key}")
 
     def has_blob(self, key: PyHash) -> bool:
         p = os.path.join(self._root, "blobs", key)
-        return os.path.exists(p)
+        meta_p = os.path.join(self._root, "blobs", key + ".meta")
+        # The metadata is written last: without it the blob is not (yet, or not completely) stored
+        return os.path.exists(p) and os.path.exists(meta_p)
 
     def _path_location(self, path: DDSPath) -> str:
         """
